@@ -16,6 +16,8 @@ def props_of(b):
             out.add("C07")
         if w in ("refused_cap",):
             out.add("C19")
+            if not ev.get("refused"):
+                out.add("C07")   # the assembler accepted (and so reports as an instruction start) what did not fit
         if w in ("refused_label", "labels", "d8", "d16", "ret") or w.startswith("finalize"):
             out.add("C06")
         if w in ("lines", "listing"):
